@@ -37,6 +37,12 @@ type Config struct {
 	MaxVTime   time.Duration // horizon on virtual time (0 = 1h)
 	SwitchFree bool          // alternatives at a non-preemptive switch cost nothing (CHESS style)
 	Trace      bool          // record every point in Result.Trace
+	// UnlockPoints makes Mutex.Unlock / RWMutex.Unlock / RUnlock scheduling points as well (taken after the lock
+	// has been released). Without it the code between an unlock and the thread's next synchronisation operation
+	// runs atomically with the critical section before it, which is equivalent for race-free code but hides
+	// "read under the lock, act after releasing it" mistakes. It multiplies the number of interleavings, so it is
+	// meant for the small all-interleavings scenarios.
+	UnlockPoints bool
 }
 
 // ThreadInfo describes a thread at the end of an execution.
@@ -409,6 +415,13 @@ func Point(op string) {
 	t.pred = nil
 	t.op = op
 	e.schedule(t)
+}
+
+// UnlockPoint is called by the lock types after a release: a scheduling point if Config.UnlockPoints is set.
+func UnlockPoint(op string) {
+	if e := current(); e != nil && e.cfg.UnlockPoints {
+		Point(op)
+	}
 }
 
 // Block is a scheduling point before an operation that is enabled only when pred holds. On return
